@@ -655,7 +655,13 @@ type stats struct {
 	schedules, points, states int
 	outcomes                  map[string]int
 	completedBound            string
+	capped                    bool
 }
+
+// scheduleCap bounds one (scenario, preemption bound) exploration. On the unchanged tree the largest
+// scenario needs a few thousand schedules; a changed tree that puts locks (a sync.Pool) on the hot
+// path of Execute makes the unbounded space explode, and the run must still end.
+const scheduleCap = 60000
 
 type violation struct {
 	Scenario scenario `json:"scenario"`
@@ -764,6 +770,10 @@ func opsKey(sc scenario) string {
 func explore(sc scenario, bound int, st *stats, onFinding func(v violation, f rep.Finding)) {
 	var rec func(prefix []int)
 	rec = func(prefix []int) {
+		if st.schedules >= scheduleCap {
+			st.capped = true
+			return
+		}
 		fs, r, outcome := check(sc, prefix)
 		st.schedules++
 		st.points += len(r.Points)
@@ -978,6 +988,7 @@ func main() {
 	totalSched, totalPoints := 0, 0
 	outcomes := map[string]struct{}{}
 	singleOutcome := 0
+	cappedScenarios := 0
 	for _, sc := range scs {
 		// iterate the preemption bound 0,1,2 and then unbounded; the last one subsumes the others,
 		// the smaller bounds yield the simplest counterexample first
@@ -992,6 +1003,9 @@ func main() {
 				}
 				r.Report("schedule", v, f)
 			})
+			if st.capped {
+				cappedScenarios++
+			}
 			if bound == -1 {
 				totalSched += st.schedules
 				totalPoints += st.points
@@ -1014,7 +1028,12 @@ func main() {
 	r.Note("transitions", totalPoints)
 	r.Note("traces_validated_against_impl", totalSched)
 	r.Note("schedules_explored_unbounded", totalSched)
-	r.Note("preemption_bounds_completed", "0,1,2,unbounded (every scenario explored to completion)")
+	if cappedScenarios == 0 {
+		r.Note("preemption_bounds_completed", "0,1,2,unbounded (every scenario explored to completion)")
+	} else {
+		r.Note("preemption_bounds_completed", fmt.Sprintf("0,1,2 and unbounded up to %d schedules per scenario and bound; %d explorations stopped at that cap", scheduleCap, cappedScenarios))
+		r.Incomplete(fmt.Sprintf("%d scenario explorations stopped at the cap of %d schedules", cappedScenarios, scheduleCap))
+	}
 	r.Note("feequote_scenarios_with_a_single_outcome", singleOutcome)
 	r.Sample("schedule", map[string]any{"scenario": scs[13], "schedule": []int{0, 1, 0}})
 	r.Sample("schedule", map[string]any{"scenario": scs[len(scs)-2], "note": "engine: Execute has no lock operations; interleavings reduce to start orders, shared-state writes are caught by the happens-before monitor"})
